@@ -183,6 +183,11 @@ def check_pair(p, inp, oracle=True):
         p.violation('inverse-miss', 'miss', inp, repr(r), 'three finite numbers', call)
         return
     s, a12, a21 = r
+    if not 0 <= s <= 2.1e7:
+        # no pair of the domain is further apart than 19 800 km; do not feed such an answer to the oracle
+        p.case('miss:' + kind, inp, True)
+        p.violation('inverse-miss', 'miss', inp, {'ell_dist': s}, 'a distance in [0, 19 800 km]', call)
+        return
     if oracle:
         # (a) follow the exact geodesic with the answer
         p.case('miss:' + kind, inp, True)
